@@ -205,7 +205,7 @@ def gen_general(rng, seed, family=None, faults=('loss', 'kill', 'clean_restart',
     if 'stall' in faults and rng.random() < 0.25:
         victim = rng.choice([n for n in p.nodes if n['role'] != 'source'])
         victim['beh']['stall'] = {'seq': rng.randint(1, 6), 'secs': rng.choice([1.0, 3.0, 7.0])}
-    if 'clean_restart' in faults and rng.random() < 0.2:
+    if 'clean_restart' in faults and rng.random() < 0.3:
         victim = rng.choice([n for n in p.nodes if n['role'] != 'sink'])
         victim['prop_exit'] = 'none'            # it leaves quietly (CLOSE only), the rest of the pipeline keeps running
         scn_faults.append({'at_ms': rng.randint(300, 3000), 'kind': 'clean_restart', 'node': victim['id'], 'delay_ms': rng.choice([0, 300, 1500])})
